@@ -9,6 +9,7 @@ import (
 	"hash"
 
 	"github.com/evanw/esbuild/internal/config"
+	"github.com/evanw/esbuild/internal/fs"
 	"github.com/evanw/esbuild/internal/graph"
 	"github.com/evanw/esbuild/internal/sourcemap"
 )
@@ -90,5 +91,33 @@ func VerifHashPreimage(items [][]byte, isUint32 []bool, uint32s []uint32) []byte
 			hashWriteLengthPrefixed(h, items[i])
 		}
 	}
+	return h.data
+}
+
+// VerifFinalHashPreimage runs the real appendIsolatedHashesForImportedChunks for chunk `chunkIndex` over a
+// chunk graph given by cross-chunk imports, asset pieces (relative paths below the output directory) and
+// isolated hashes, with a recording hash, and returns the bytes that were fed to the hash.
+func VerifFinalHashPreimage(imports [][]uint32, assets [][]string, iso [][]byte, chunkIndex uint32) []byte {
+	c := &linkerContext{options: &config.Options{AbsOutputDir: "/out"}}
+	c.fs = fs.MockFS(map[string]string{}, fs.MockUnix, "/")
+	c.chunks = make([]chunkInfo, len(imports))
+	for i := range c.chunks {
+		for _, j := range imports[i] {
+			c.chunks[i].crossChunkImports = append(c.chunks[i].crossChunkImports, chunkImport{chunkIndex: j})
+		}
+		for _, rel := range assets[i] {
+			index := uint32(len(c.graph.Files))
+			c.graph.Files = append(c.graph.Files, graph.LinkerFile{InputFile: graph.InputFile{
+				AdditionalFiles: []graph.OutputFile{{AbsPath: "/out/" + rel}}}})
+			c.chunks[i].intermediateOutput.pieces = append(c.chunks[i].intermediateOutput.pieces,
+				outputPiece{data: []byte("x"), index: index, kind: outputPieceAssetIndex})
+		}
+		c.chunks[i].intermediateOutput.pieces = append(c.chunks[i].intermediateOutput.pieces, outputPiece{data: []byte("tail")})
+		data := iso[i]
+		c.chunks[i].waitForIsolatedHash = func() []byte { return data }
+	}
+	h := &verifRecordingHash{}
+	visited := make([]uint32, len(c.chunks))
+	c.appendIsolatedHashesForImportedChunks(h, chunkIndex, visited, ^uint32(chunkIndex))
 	return h.data
 }
